@@ -220,7 +220,19 @@ impl SigV4Authenticator {
                                 && r->Err_0->SignatureDoesNotMatch_0->Some_0@ == MSG_REQUEST_SIGNATURE_MISMATCH@)
                     },
                 }
-            }, //# C01 C02 C14 C15 C17 name=accept_iff_signature_is_hmac_of_string_to_sign_under_provider_key
+            }, //# C01 C02 name=accept_iff_signature_is_hmac_of_string_to_sign_under_provider_key
+        // the same statement, one concern at a time (so that a refuted part names its own property)
+        self.pre_ok(region.spec_bytes(), service.spec_bytes(), server_timestamp, allowed_mismatch) ==>
+            exists|req: GetSigningKeyRequest| #[trigger] self.is_provider_request(region@, service@, req) && final(get_signing_key).calls() == old(get_signing_key).calls().push(req), //# C14 C03 name=exactly_one_key_lookup_with_the_exact_request
+        r is Ok ==> exists|req: GetSigningKeyRequest| #[trigger] self.is_provider_request(region@, service@, req)
+            && provider_answer::<S, GetSigningKeyRequest, GetSigningKeyResponse, BoxError>(*old(get_signing_key), req) is Ok
+            && r->Ok_0.s_principal() == provider_answer::<S, GetSigningKeyRequest, GetSigningKeyResponse, BoxError>(*old(get_signing_key), req)->Ok_0.s_principal()
+            && r->Ok_0.s_session_data() == provider_answer::<S, GetSigningKeyRequest, GetSigningKeyResponse, BoxError>(*old(get_signing_key), req)->Ok_0.s_session_data(), //# C15 name=identity_data_are_the_providers
+        self.pre_ok(region.spec_bytes(), service.spec_bytes(), server_timestamp, allowed_mismatch) && r is Err && r->Err_0 is SignatureDoesNotMatch ==>
+            (r->Err_0->SignatureDoesNotMatch_0 is Some && r->Err_0->SignatureDoesNotMatch_0->Some_0@ == MSG_REQUEST_SIGNATURE_MISMATCH@)
+            || exists|req: GetSigningKeyRequest| #[trigger] self.is_provider_request(region@, service@, req)
+                && provider_answer::<S, GetSigningKeyRequest, GetSigningKeyResponse, BoxError>(*old(get_signing_key), req) is Err
+                && r->Err_0 == wrap_box_error(provider_answer::<S, GetSigningKeyRequest, GetSigningKeyResponse, BoxError>(*old(get_signing_key), req)->Err_0), //# C17 name=mismatch_error_carries_only_the_fixed_message
 //@ bodystart
     broadcast use axiom_as_ref_bytes_array;
     proof { lemma_auth_literals(); }
